@@ -56,10 +56,11 @@ type faultPlan struct {
 	writes  int // store writes seen inside subjectiveTail
 	fired   bool
 	getLog  []string // every getter call inside subjectiveTail
+	reqs    []string // Get(hash) and GetRangeByHeight calls inside subjectiveTail as greq terms
 	outside int      // calls outside subjectiveTail
 }
 
-func (f *faultPlan) get(what string) error {
+func (f *faultPlan) get(what, term string) error {
 	if !inTail() {
 		f.mu.Lock()
 		f.outside++
@@ -71,6 +72,9 @@ func (f *faultPlan) get(what string) error {
 	i := f.gets
 	f.gets++
 	f.getLog = append(f.getLog, what)
+	if term != "" {
+		f.reqs = append(f.reqs, term)
+	}
 	if f.kind == "get" && i == f.k {
 		f.fired = true
 		return errInjected
@@ -109,14 +113,20 @@ type faultGetter struct {
 }
 
 func (g *faultGetter) Get(ctx context.Context, hash header.Hash) (*vhdr.Header, error) {
-	if err := g.plan.get("hash"); err != nil {
+	var at uint64
+	for _, h := range g.chain[:g.vis] {
+		if string(h.Hash()) == string(hash) {
+			at = h.Height()
+		}
+	}
+	if err := g.plan.get("hash", fmt.Sprintf("GHash %d", at)); err != nil {
 		return nil, err
 	}
 	return g.chainGetter.Get(ctx, hash)
 }
 
 func (g *faultGetter) GetByHeight(ctx context.Context, height uint64) (*vhdr.Header, error) {
-	if err := g.plan.get(fmt.Sprintf("height %d", height)); err != nil {
+	if err := g.plan.get(fmt.Sprintf("height %d", height), ""); err != nil {
 		g.mu.Lock()
 		g.req = append(g.req, height) // the request was made
 		g.mu.Unlock()
@@ -126,7 +136,7 @@ func (g *faultGetter) GetByHeight(ctx context.Context, height uint64) (*vhdr.Hea
 }
 
 func (g *faultGetter) GetRangeByHeight(ctx context.Context, from *vhdr.Header, to uint64) ([]*vhdr.Header, error) {
-	if err := g.plan.get(fmt.Sprintf("range %d %d", from.Height(), to)); err != nil {
+	if err := g.plan.get(fmt.Sprintf("range %d %d", from.Height(), to), fmt.Sprintf("GRange %d %d", from.Height(), to)); err != nil {
 		return nil, err
 	}
 	return g.chainGetter.GetRangeByHeight(ctx, from, to)
@@ -262,7 +272,7 @@ func runFault(t *testing.T, fc faultCase) (res faultResult) {
 		for i := 1; i < len(times); i++ {
 			gs = append(gs, emit.Z((times[i]-times[i-1])/u))
 		}
-		res.term = fmt.Sprintf("Case16f %s (Case16 %s (times_of %s %s %s) %s %s (Obs %s %s %s))", plan.term(), fc.P.term(), emit.Z(times[0]), emit.Z(u), emit.List(gs),
+		res.term = fmt.Sprintf("Case16f %s "+emit.List(plan.reqs)+" (Case16 %s (times_of %s %s %s) %s %s (Obs %s %s %s))", plan.term(), fc.P.term(), emit.Z(times[0]), emit.Z(u), emit.List(gs),
 			emit.Z(now), before.term(), out, emit.List(req), after.term())
 		shape := "wf"
 		switch {
